@@ -205,6 +205,64 @@ pub fn alphabet<TC: ModelCfg>() -> &'static Alphabet {
     })
 }
 
+/// "Tree-shape" alphabets: four labels p,q,r,s whose version-1 leaves force the node-decompression
+/// case of the insertion with a simultaneous insertion below the pushed-down node: fresh(p,1) and
+/// fresh(q,1) share exactly 4 bits (interior node E at depth 4 hanging on a compressed edge),
+/// fresh(r,1) shares exactly 2 bits with them (splits the compressed edge above E) and fresh(s,1)
+/// shares at least 5 bits with fresh(p,1) (lands below E and splits again). `orient` = third bit of
+/// fresh(p,1): whether E becomes the left (0) or right (1) child of the new interior node. Searched
+/// deterministically over candidate names "t0".."t7999".
+pub fn shape_alphabet<TC: ModelCfg>(orient: usize) -> &'static Alphabet {
+    static W: [OnceLock<Alphabet>; 2] = [OnceLock::new(), OnceLock::new()];
+    static E: [OnceLock<Alphabet>; 2] = [OnceLock::new(), OnceLock::new()];
+    let cell = if TC::NAME == "whatsapp_v1" { &W[orient] } else { &E[orient] };
+    cell.get_or_init(|| {
+        let cands: Vec<Vec<u8>> = (0..8000).map(|i| format!("t{i}").into_bytes()).collect();
+        let mut f1: Vec<NodeLabel> = Vec::new();
+        let mut p = None;
+        let (mut q, mut r, mut s) = (None, None, None);
+        for i in 0..cands.len() {
+            let f = node_label::<TC>(&cands[i], true, 1);
+            f1.push(f);
+            let Some(pi) = p else {
+                if nl_bits(&f1[i]).0[2] == (orient == 1) {
+                    p = Some(i);
+                }
+                continue;
+            };
+            let l = lcp_len(&f1[i], &f1[pi]);
+            if l == 4 && q.is_none() {
+                q = Some(i);
+            } else if l == 2 && r.is_none() {
+                r = Some(i);
+            } else if l >= 5 && s.is_none() {
+                s = Some(i);
+            }
+            if q.is_some() && r.is_some() && s.is_some() {
+                break;
+            }
+        }
+        let (p, q, r, s) = (p.expect("shape p"), q.expect("shape q"), r.expect("shape r"), s.expect("shape s"));
+        Alphabet {
+            labels: vec![cands[p].clone(), cands[q].clone(), cands[r].clone(), cands[s].clone()],
+            note: format!(
+                "shape labels {} {} {} {}: fresh(p,1)={}; fresh(q/r/s,1) share 4 / 2 / {} bits with it",
+                String::from_utf8_lossy(&cands[p]),
+                String::from_utf8_lossy(&cands[q]),
+                String::from_utf8_lossy(&cands[r]),
+                String::from_utf8_lossy(&cands[s]),
+                nl_bits(&f1[p]).prefix(8).show(),
+                lcp_len(&f1[s], &f1[p])
+            ),
+        }
+    })
+}
+
+/// batch alphabet over a shape alphabet (single value)
+pub fn shape_batches<TC: ModelCfg>(orient: usize) -> Vec<Batch> {
+    batches(&shape_alphabet::<TC>(orient).labels, &[b"x".to_vec()])
+}
+
 /// all partial maps from `labels` to `values` (the empty batch first)
 pub fn batches(labels: &[Vec<u8>], values: &[Vec<u8>]) -> Vec<Batch> {
     let mut out: Vec<Batch> = vec![vec![]];
